@@ -21,8 +21,11 @@ import (
 // One AccessLogHook per case, writing to a gated io.Writer. Script ops:
 //
 //	hook <rate|none> <q|sync>            NewAccessLogHook; SetSampleRate(rate) unless none; SetAsync(q) unless sync
-//	emit <id> <status> <sid> <rid>       AccessLogHook.emit on a record {n:id,status,stream_id,request_id};
-//	                                     field tokens: - absent | n non-string (7) | x<hex> string
+//	emit <id> <status> <sid> <rid> [extras]   AccessLogHook.emit on a record {n:id,status,stream_id,request_id,…};
+//	                                     field tokens: - absent | n non-string (7) | x<hex> string;
+//	                                     extras: - | x<key>:<field>,… = every other key of the record (trace_id,
+//	                                     span_id, method, principal, arbitrary names) — they vary freely between
+//	                                     records that share a stream id / request id
 //	w                                    let the writer goroutine's current Write return (it then eagerly
 //	                                     receives the next queued record / exits when closed and empty)
 //	drain                                repeat w while allowed
@@ -41,7 +44,8 @@ func init() {
 	Register(&Prop{
 		ID: "C39",
 		Rule: "hooks with sampling rates steered to FNV-1a hashes of the key pool (thr = h-1,h,h+1), 0, 1, tiny, invalid (NaN/neg/>1); " +
-			"records over a small pool of stream/request ids with string/non-string/empty/absent fields and ok/error/odd statuses; " +
+			"records over a small pool of stream/request ids with string/non-string/empty/absent fields and ok/error/odd statuses, " +
+			"each carrying independently varied other keys (trace_id, span_id, method, principal, look-alike id keys, values drawn from the same id pool); " +
 			"async queues of capacity 1..5 (and <=0 -> default) under random emit/w/close/drain/hclose schedules with a gated writer; " +
 			"thorough adds every schedule of length <=7 over {emit,emit-err,w,close} for capacities 1 and 2. " +
 			"non-trivial = at least one emit on a hook with an active sampler or an async queue; distinct = distinct scripts",
@@ -132,8 +136,57 @@ func c39StatusTok(r *Rng) string {
 	}
 }
 
+// every other key a record may carry: the sampler and the emitter must not look at any of them.
+// (status / stream_id / request_id are the three positional fields; n is the harness label;
+// sample_rate and dropped_records are the two keys the code itself writes.)
+var c39ExtraKeys = []string{"trace_id", "span_id", "method", "method_type", "principal", "server_id", "protocol", "remote_addr",
+	"call_id", "id", "key", "StreamID", "stream-id", "streamid", "Stream_Id", "requestId", "request-id", "error_type", "message",
+	"parent_id", "session_id", "traceparent", "timestamp", "é"}
+
+func c39Extras(r *Rng, pool []string) string {
+	if r.Chance(12) {
+		return "-"
+	}
+	used := map[string]bool{}
+	var parts []string
+	add := func(k string) {
+		if used[k] {
+			return
+		}
+		used[k] = true
+		var v string
+		switch x := r.Intn(100); {
+		case x < 45:
+			v = XS(Pick(r, pool)) // collides with the ids other records are keyed on
+		case x < 80:
+			v = X([]byte(fmt.Sprintf("%016x", r.U64())))
+		case x < 88:
+			v = "n"
+		case x < 94:
+			v = XS("")
+		default:
+			v = XS(Pick(r, c39Keys))
+		}
+		parts = append(parts, XS(k)+":"+v)
+	}
+	// trace_id / span_id vary on (almost) every record, like on a real server with tracing on
+	if r.Chance(85) {
+		add("trace_id")
+	}
+	if r.Chance(70) {
+		add("span_id")
+	}
+	for i, n := 0, r.Intn(4); i < n; i++ {
+		add(Pick(r, c39ExtraKeys))
+	}
+	if len(parts) == 0 {
+		return "-"
+	}
+	return strings.Join(parts, ",")
+}
+
 func c39Emit(r *Rng, id int, pool []string) string {
-	return fmt.Sprintf("emit %d %s %s %s", id, c39StatusTok(r), c39FieldTok(r, pool), c39FieldTok(r, pool))
+	return fmt.Sprintf("emit %d %s %s %s %s", id, c39StatusTok(r), c39FieldTok(r, pool), c39FieldTok(r, pool), c39Extras(r, pool))
 }
 
 func c39Gen(g *Gen) {
@@ -548,7 +601,7 @@ func c39Exec(c *Case) {
 			continue
 		}
 		switch {
-		case f[0] == "emit" && len(f) == 5:
+		case f[0] == "emit" && (len(f) == 5 || len(f) == 6):
 			e.doEmit(l, f)
 		case l == "w":
 			if e.releaseOne() {
@@ -730,6 +783,28 @@ func (e *c39Env) doEmit(l string, f []string) {
 			rec[names[i]] = v
 			vals[i] = v
 		}
+	}
+	if len(f) == 6 && f[5] != "-" {
+		for _, p := range strings.Split(f[5], ",") {
+			kv := strings.Split(p, ":")
+			if len(kv) != 2 {
+				c.Out(l, "bad-op")
+				return
+			}
+			k, ok := UnX(kv[0])
+			v, present, ok2 := c39FieldVal(kv[1])
+			if !ok || !ok2 || !present {
+				c.Out(l, "bad-op")
+				return
+			}
+			switch string(k) {
+			case "n", "status", "stream_id", "request_id", "sample_rate", "dropped_records":
+				c.Out(l, "bad-op")
+				return
+			}
+			rec[string(k)] = v
+		}
+		c.Stat("emit-with-extras")
 	}
 	ev.isErr = vals[0] == any("error")
 	for _, v := range vals[1:] {
